@@ -104,21 +104,30 @@ fn cplan(op: &LogicalOperator) -> Option<String> {
             Some(i) => format!("(PScanIn {} {} {})", cs(&s.variable), cos(&s.label), cplan(i)?),
         },
         LogicalOperator::Expand(e) => {
-            if e.min_hops != 1 || e.max_hops != Some(1) || e.path_alias.is_some() {
-                return None;
-            }
+            // single hop without path alias, or a bounded variable-length expand (max <= 4: the
+            // engine enumerates walks, not paths)
+            let single = e.min_hops == 1 && e.max_hops == Some(1);
+            let hops = match (single, e.max_hops, &e.path_alias) {
+                (true, _, None) => "hop1".to_string(),
+                (true, _, Some(_)) => return None,
+                (false, Some(mx), pa) if mx <= 4 && e.min_hops <= 4 => {
+                    format!("(mkHops {} (Some {}) {})", coq::nat(e.min_hops as usize), coq::nat(mx as usize), cos(pa))
+                }
+                _ => return None,
+            };
             let d = match e.direction {
                 ExpandDirection::Outgoing => "DOut",
                 ExpandDirection::Incoming => "DIn",
                 ExpandDirection::Both => "DBoth",
             };
             format!(
-                "(PExpand {} {} {} {} {} {})",
+                "(PExpand {} {} {} {} {} {} {})",
                 cs(&e.from_variable),
                 cs(&e.to_variable),
                 cos(&e.edge_variable),
                 d,
                 cos(&e.edge_type),
+                hops,
                 cplan(&e.input)?
             )
         }
@@ -595,6 +604,7 @@ struct QGen<'a> {
     edge_atom: bool,
     joins: bool,
     two_hop: bool,
+    var_len: bool,
 }
 
 impl<'a> QGen<'a> {
@@ -614,22 +624,36 @@ impl<'a> QGen<'a> {
             5..=8 => 1,
             _ => 2,
         };
-        if hops >= 2 {
-            // consecutive single-hop expands run through the factorized chain operator (C10's subject)
-            self.two_hop = true;
-            self.tags.push("two-hop".into());
-        }
+        let mut single_run = 0;
         for _ in 0..hops {
             let b = self.fresh("n");
             let ev = if self.r.chance(1, 2) { Some(self.fresh("e")) } else { None };
             let ty = if self.r.chance(2, 3) { format!(":{}", self.r.pick(&ETYPES)) } else { String::new() };
+            // a bounded variable-length hop (planned as VariableLengthExpandOperator; it breaks a chain)
+            let range = if self.r.chance(1, 4) {
+                let mn = 1 + self.r.below(2);
+                let mx = mn + self.r.below(2);
+                self.tags.push("var-length".into());
+                self.var_len = true;
+                single_run = 0;
+                if mn == 1 && mx == 1 { single_run = 1; }
+                format!("*{}..{}", mn, mx)
+            } else {
+                single_run += 1;
+                String::new()
+            };
+            if single_run >= 2 && !self.two_hop {
+                // consecutive single-hop expands run through the factorized chain operator (C10's subject)
+                self.two_hop = true;
+                self.tags.push("two-hop".into());
+            }
             let inner = match &ev {
-                Some(e) => format!("[{}{}]", e, ty),
+                Some(e) => format!("[{}{}{}]", e, ty, range),
                 None => {
-                    if ty.is_empty() {
+                    if ty.is_empty() && range.is_empty() {
                         "[]".to_string()
                     } else {
-                        format!("[{}]", ty)
+                        format!("[{}{}]", ty, range)
                     }
                 }
             };
@@ -719,7 +743,7 @@ impl<'a> QGen<'a> {
 
 /// Returns (GQL text, ordered on a total key?, rows comparable with sem?, tags)
 fn gen_query(r: &mut Rng) -> (String, bool, bool, Vec<String>) {
-    let mut g = QGen { r, nodes: vec![], edges: vec![], ints: vec![], next: 0, tags: vec![], edge_atom: false, joins: false, two_hop: false };
+    let mut g = QGen { r, nodes: vec![], edges: vec![], ints: vec![], next: 0, tags: vec![], edge_atom: false, joins: false, two_hop: false, var_len: false };
     let mut q = String::new();
     let mut sem_ok = true;
     let nclauses = match g.r.below(10) {
@@ -991,6 +1015,41 @@ fn gen_plan(r: &mut Rng) -> (LogicalPlan, String, Vec<String>) {
         op = LogicalOperator::Limit(LimitOp { count: 1 + r.below(3) as usize, input: Box::new(op) });
         tags.push("limit".into());
     }
+    // an operator that stops a filter, with a filter above it
+    if r.chance(1, 6) {
+        op = match r.below(3) {
+            0 => {
+                tags.push("filter-above-limit".into());
+                LogicalOperator::Limit(LimitOp { count: 1 + r.below(4) as usize, input: Box::new(op) })
+            }
+            1 => {
+                tags.push("filter-above-skip".into());
+                LogicalOperator::Skip(SkipOp { count: r.below(3) as usize, input: Box::new(op) })
+            }
+            _ => {
+                tags.push("filter-above-distinct".into());
+                LogicalOperator::Distinct(DistinctOp { input: Box::new(op), columns: None })
+            }
+        };
+        let x = r.pick(&vs).clone();
+        op = filter(bin(prop(&x, "v"), *r.pick(&[BinaryOp::Gt, BinaryOp::Le]), int(r.range(0, 2))), op);
+    } else if r.chance(1, 6) {
+        op = LogicalOperator::Distinct(DistinctOp { input: Box::new(op), columns: None });
+        tags.push("distinct".into());
+    }
+    if r.chance(1, 8) {
+        // count(*) of the whole thing
+        tags.push("count".into());
+        let agg = LogicalOperator::Aggregate(AggregateOp {
+            group_by: vec![],
+            aggregates: vec![AggregateExpr { function: AggregateFunction::Count, expression: None, distinct: false, alias: Some("c".into()), percentile: None }],
+            input: Box::new(op),
+            having: None,
+        });
+        let root = ret(vec![(var("c"), None)], agg);
+        let text = format!("{:?}", root);
+        return (LogicalPlan::new(root), text, tags);
+    }
     let items: Vec<(LogicalExpression, Option<&str>)> = vs.iter().map(|x| (prop(x, "u"), None)).collect();
     let root = ret(items, op);
     let text = format!("{:?}", root);
@@ -1011,6 +1070,11 @@ fn corpus(out: &mut Out) {
         ("MATCH (a:A) WHERE a.v > 0 WITH a WHERE a.v < 3 RETURN a.v, a.u", false, true),
         ("MATCH (a:A)-[:R]->(b:B) WHERE b.v > 0 AND a.v = 0 RETURN a.u, b.u", false, true),
         ("MATCH (c:C) MATCH (a:A {v: 0})-[:R]->(b:B {v: 1}) WHERE a.u = 100 RETURN a.u, b.u, c.u", false, true),
+        // variable-length expands: pushed through unless the predicate mentions target / edge / path
+        ("MATCH (a:A)-[:R*1..2]->(b) WHERE a.v = 0 RETURN a.u, b.u", false, true),
+        ("MATCH (a:A)-[r:R*1..2]->(b) MATCH (c:C) WHERE a.v < 2 AND b.v > 0 RETURN a.u, b.u, c.u", false, true),
+        ("MATCH (a:A)-[*2..3]->(b) WHERE a.u = 100 RETURN a.u, b.u", false, true),
+        ("MATCH (c:C) MATCH (a:A)-[:R*1..2]->(b)-[:S]->(d) WHERE a.v = 0 RETURN a.u, b.u, c.u, d.u", false, true),
         // C09-K5: a hop of a two-hop chain without any match (no C node has an outgoing R edge; b2 has
         // no outgoing S edge) next to a join
         ("MATCH (a:C)-[:R]->(b)-[:S]->(c) MATCH (x:B) WHERE x.v <> 7 RETURN a.u, x.u", false, false),
@@ -1176,7 +1240,9 @@ fn main() {
             }
             if r.chance(1, 5) {
                 let (plan, text, tags) = gen_plan(&mut r);
-                treat(&mut out, &mut fx, "plan", &text, &plan, false, true, tags);
+                // LIMIT/SKIP over a join: which rows survive depends on the engine's join output order
+                let sem_ok = !tags.iter().any(|t| t.contains("limit") || t.contains("skip"));
+                treat(&mut out, &mut fx, "plan", &text, &plan, false, sem_ok, tags);
                 done += 1;
             } else {
                 let (q, ordered, sem_ok, tags) = gen_query(&mut r);
